@@ -288,7 +288,11 @@ def _derive(seed, *parts):
 def _run_enum(ctx, drv):
   t0 = time.time()
   n = 0
-  for i, c in enumerate(drv.gen()):
+  if getattr(drv.gen, "sharded", False):
+    it = ((ctx.shard, c) for c in drv.gen(ctx.shard, ctx.nshards))    # the generator shards itself
+  else:
+    it = enumerate(drv.gen())
+  for i, c in it:
     if i % ctx.nshards != ctx.shard:
       continue
     new = ctx.execute(c)
@@ -548,7 +552,8 @@ def main(argv=None):
   if total.violations:
     os.makedirs(os.path.join(VERIF_DIR, "out", "replay"), exist_ok=True)
     for v in total.violations:
-      p = os.path.join(VERIF_DIR, "out", "replay", "%s-%s.json" % (mod.ID, hashlib.sha1(json.dumps(v["case"], sort_keys=True).encode()).hexdigest()[:12]))
+      p = os.path.join(VERIF_DIR, "out", "replay", "%s-%s.json" % (mod.ID, hashlib.sha1(
+          (json.dumps(v["case"], sort_keys=True) + json.dumps(v["key"], sort_keys=True)).encode()).hexdigest()[:12]))
       with open(p, "w") as f:
         json.dump({"property": mod.ID, "case": v["case"], "key": v["key"], "msg": v["msg"],
                    "driver": v["driver"], "seed": seed, "tier": tier}, f, indent=1, sort_keys=True)
